@@ -37,7 +37,7 @@ def instantiate(law, p, q, a, b, c, d):
 class C18(Check):
     PID = 'C18'
     RULE = ('every law x seeded random operand formulas (depth <= 3) x bounds (incl. 0, equal ends, windows beyond the trace) x traces; '
-            'both sides evaluated by the discrete offline monitor and, when both are past-time, by the online monitor; signals must be identical; '
+            'both sides evaluated by the discrete offline monitor and, when both are past-time, by the online monitor, half of those also beside a bounded-future operand in the pastified online monitor; signals must be identical; '
             'also impl = rho on both sides; non-trivial = operand with >= 2 nodes; distinct by (law, operands, bounds, data)')
 
     def gen_cases(self, rng, tier):
@@ -59,6 +59,11 @@ class C18(Check):
                 nv = max(need_vars(l, nv), need_vars(r, nv))
                 cases.append({'law': law, 'p': p, 'q': q, 'bounds': [a, b, c, d], 'f': l, 'g': r, 'n': n, 'nv': nv,
                               'cols': fml.gen_trace(rng, nv, n), 'times': list(range(n))})
+                # a past-time law beside a bounded-future operand, in the pastified online monitor: both sides are delayed by the same
+                # horizon h, each in the way the pastifier delays its top operator (seeded change C18_A5: a delay folded into the bounds
+                # of historically); the two monitors must return the same outputs at every update
+                if not fml.has_future(l) and not fml.has_future(r) and rng.random() < 0.5:
+                    cases[-1]['ctx'] = [rng.choice([1, 2, 3]), rng.choice(['and', 'or'])]
         return cases
 
     def load_case(self, c):
@@ -77,6 +82,9 @@ class C18(Check):
         out = [offline_case(c['f'], c['cols'], c['times'], c['nv']), offline_case(c['g'], c['cols'], c['times'], c['nv'])]
         if not fml.has_future(c['f']) and not fml.has_future(c['g']):
             out += [online_case(c['f'], c['cols'], c['times'], c['nv']), online_case(c['g'], c['cols'], c['times'], c['nv'])]
+            if c.get('ctx'):
+                fut = ('evt', 0, c['ctx'][0], ('pred', 'geq', ('var', 0), ('const', 0)))
+                out += [online_case((c['ctx'][1], side, fut), c['cols'], c['times'], c['nv'], pastify=True) for side in (c['f'], c['g'])]
         return out
 
     def judge(self, c, mlines, ires):
@@ -99,9 +107,13 @@ class C18(Check):
         det = {'law': c['law'], 'lhs': 'out = ' + fml.to_text(c['f']), 'rhs': 'out = ' + fml.to_text(c['g'])}
         if lhs != rhs:
             return 'violation', dict(det, expected='identical offline signals', observed={'lhs': lhs, 'rhs': rhs})
-        if len(sig) == 4 and sig[2] != sig[3]:
+        if len(sig) >= 4 and sig[2] != sig[3]:
             return 'violation', dict(det, expected='identical online outputs', observed={'lhs': sig[2], 'rhs': sig[3]})
-        if len(sig) == 4 and sig[2] != lhs:
+        if len(sig) == 6 and sig[4] != sig[5]:
+            ctx = ' %s eventually[0,%d](xa >= 0)' % (c['ctx'][1], c['ctx'][0])
+            return 'violation', dict(det, lhs='out = (' + fml.to_text(c['f']) + ')' + ctx, rhs='out = (' + fml.to_text(c['g']) + ')' + ctx,
+                                     expected='identical outputs of the pastified online monitor', observed={'lhs': sig[4], 'rhs': sig[5]})
+        if len(sig) >= 4 and sig[2] != lhs:
             return 'violation', dict(det, expected='online = offline', observed={'online': sig[2], 'offline': lhs})
         r1 = json.loads(json.dumps(expect_vals([fml.parse_val(x) for x in m1['RHO']])))
         r2 = json.loads(json.dumps(expect_vals([fml.parse_val(x) for x in m2['RHO']])))
@@ -112,13 +124,13 @@ class C18(Check):
         return 'ok', None
 
     def features(self, c):
-        return [c['law']] + sorted(fml.ops(c['p']))
+        return [c['law']] + sorted(fml.ops(c['p'])) + (['beside_a_future_operand_pastified'] if c.get('ctx') else [])
 
     def nontrivial(self, c):
         return fml.size(c['p']) >= 2
 
     def key(self, c):
-        return json.dumps([c['law'], fml.to_sx(c['f']), c['cols']])
+        return json.dumps([c['law'], fml.to_sx(c['f']), c['cols'], c.get('ctx')])
 
     def describe(self, c):
         return {'law': c['law'], 'lhs': 'out = ' + fml.to_text(c['f']), 'rhs': 'out = ' + fml.to_text(c['g']), 'data': c['cols']}
